@@ -160,6 +160,7 @@ type jStrTag struct {
 	F int8   `json:",string"`
 	G bool   `json:"g,string,omitempty"`
 	S string `json:"s,string"`
+	P *int8  `json:"p,string"`
 }
 
 type jSlices struct {
@@ -193,6 +194,7 @@ type jNested struct {
 
 type jIface struct {
 	I any `json:"i"`
+	O any `json:"o,omitempty"`
 }
 
 type jNumRaw struct {
@@ -295,7 +297,14 @@ var jshapes = []jShape{
 			return append(b, '}'), true
 		}},
 	{name: "strtag", ptr: func(v any) any { x := v.(jStrTag); return &x }, newp: func() any { return new(jStrTag) },
-		mk: func() any { return jStrTag{E: vfByte(), F: int8(vfByte()), G: vfBool(), S: symStr(vfLen)} },
+		mk: func() any {
+			v := jStrTag{E: vfByte(), F: int8(vfByte()), G: vfBool(), S: symStr(vfLen)}
+			if vfBool() {
+				x := int8(vfByte())
+				v.P = &x
+			}
+			return v
+		},
 		want: func(x any, esc bool) ([]byte, bool) {
 			v := x.(jStrTag)
 			b := append([]byte(nil), `{"e":"`...)
@@ -309,6 +318,14 @@ var jshapes = []jShape{
 			b = append(b, `,"s":`...)
 			inner := refQuote(nil, v.S, esc)
 			b = refQuote(b, string(inner), esc)
+			b = append(b, `,"p":`...)
+			if v.P == nil {
+				b = append(b, "null"...) // a nil pointer is null, not the string "null"
+			} else {
+				b = append(b, '"')
+				b = refInt(b, int64(*v.P))
+				b = append(b, '"')
+			}
 			return append(b, '}'), true
 		}},
 	{name: "slices", ptr: func(v any) any { x := v.(jSlices); return &x }, newp: func() any { return new(jSlices) },
@@ -460,6 +477,14 @@ var jshapes = []jShape{
 			case 5:
 				v.I = map[string]any{"k": symStr(vfLen)}
 			}
+			if vfRT == 0 {
+				switch vfIntIn(0, 2) {
+				case 1:
+					v.O = (*int8)(nil) // a non-nil interface holding a nil pointer is not "empty": encoding/json writes null
+				case 2:
+					v.O = false // neither is an interface holding a zero value
+				}
+			}
 			return v
 		},
 		want: func(x any, esc bool) ([]byte, bool) {
@@ -482,6 +507,15 @@ var jshapes = []jShape{
 				b = append(b, `{"k":`...)
 				b = refQuote(b, y["k"].(string), esc)
 				b = append(b, '}')
+			}
+			switch y := v.O.(type) {
+			case *int8:
+				if y == nil {
+					b = append(b, `,"o":null`...)
+				}
+			case bool:
+				b = append(b, `,"o":`...)
+				b = refBool(b, y)
 			}
 			return append(b, '}'), true
 		}},
@@ -594,10 +628,13 @@ var jshapes = []jShape{
 			case 4:
 				v.R = map[string]RawMessage{}
 				if n > 0 {
-					if vfBool() {
+					switch vfIntIn(0, 2) {
+					case 0:
 						v.R[k1] = RawMessage(`[1, "<"]`)
-					} else {
+					case 1:
 						v.R[k1] = nil
+					default:
+						v.R[k1] = RawMessage(`{`) // not valid JSON: every flag subset that does not trust raw messages must fail
 					}
 				}
 				if n > 1 {
@@ -606,7 +643,15 @@ var jshapes = []jShape{
 			}
 			return v
 		},
-		want: func(x any, esc bool) ([]byte, bool) { return fastWant(x.(jFast), esc, false), true }},
+		want: func(x any, esc bool) ([]byte, bool) {
+			v := x.(jFast)
+			for _, r := range v.R {
+				if r != nil && !refValid(r) {
+					return nil, false
+				}
+			}
+			return fastWant(v, esc, false), true
+		}},
 	{name: "addrV", noPtrParity: true, ptr: func(v any) any { x := v.(jArrs); return &x }, newp: func() any { return new(jArrs) },
 		mk:   func() any { return mkArrs() },
 		want: func(x any, esc bool) ([]byte, bool) { return arrsWant(x.(jArrs), false), true }},
